@@ -91,7 +91,35 @@ fn drive(case: &Case, mode: Mode, rec: bool, st: Option<&mut Stats>) -> Driven {
             }
         },
     };
-    Driven { result: render_result(&result), obs: observe(&mut xs), steps }
+    let mut result = render_result(&result);
+    // Sliced by the instruction limit: the host grants a fresh budget and drives on in the same
+    // manner (run() after eval / run(), next() after next()) until the program ends. However the
+    // execution was sliced, what the program does must not change.
+    if result.contains("insn limit reached") && xs.is_running() {
+        let budget = 20_000usize;
+        xs.set_insn_limit(Some(budget)).unwrap();
+        let r2: Xresult = match mode {
+            Mode::Eval | Mode::CompileRun => xs.run(),
+            Mode::CompileStep => {
+                let mut res = Ok(());
+                let mut n = 0usize;
+                while xs.is_running() {
+                    n += 1;
+                    if n > 2 * budget {
+                        res = Err(Xerr::ErrorMsg("harness step cap".into()));
+                        break;
+                    }
+                    if let Err(e) = xs.next() {
+                        res = Err(e);
+                        break;
+                    }
+                }
+                res
+            }
+        };
+        result = format!("{} | resumed: {}", result, render_result(&r2));
+    }
+    Driven { result, obs: observe(&mut xs), steps }
 }
 
 impl Engine for Drive {
@@ -104,6 +132,7 @@ impl Engine for Drive {
 
     fn generate(rng: &mut Rng, _tier: Tier) -> Case {
         let mut f = Features::swarm(rng);
+        f.immediates = rng.chance(1, 3);
         let input_len = *rng.pick(&[0usize, 8, 64, 64, 64]);
         let input = random_bytes(rng, input_len);
         let intercept_emit = rng.chance(1, 2);
@@ -157,6 +186,9 @@ impl Engine for Drive {
         }
         if outs[0].result.contains("insn limit") {
             st.count("fault.watchdog_insn_limit");
+        }
+        if outs[0].result.contains("resumed:") {
+            st.count("fault.paused_by_insn_limit_then_resumed");
         }
         if !outs[0].obs.out.is_empty() {
             st.count("probe.output_nonempty");
